@@ -102,9 +102,18 @@ class Driver(object):
             except Exception as why:
                 other = repr(why)
             return rejected, len(rt.sockets) != before, other
-        rt, br, conn = self.conn()
-        vrt.RT = rt
-        ch = conn.channel()
+        for attempt in (0, 1):
+            rt, br, conn = self.conn()
+            vrt.RT = rt
+            try:
+                ch = conn.channel()
+                break
+            except Exception:
+                # an earlier case left the connection unusable (that case has
+                # already been recorded): start from a fresh connection
+                self._conn = None
+                if attempt:
+                    raise
         vconn.settle(rt, 1)
         target = {'basic': ch.basic, 'queue': ch.queue,
                   'exchange': ch.exchange, 'channel': ch,
@@ -135,7 +144,7 @@ class Driver(object):
                     c.close()
         except Exception:
             self._conn = None
-        if not conn.is_open or other:
+        if not conn.is_open or other or effect or br.violations:
             self._conn = None
         return rejected, effect, other
 
